@@ -63,7 +63,12 @@ def readme() -> None:
             continue
         with open(meta_path, encoding="utf-8") as handle:
             meta = json.load(handle)
-        caught = "; ".join(f"{p}: {', '.join(r)}" for p, r in sorted(meta["caught_by"].items())) or "— (missed, see DESIGN §6)"
+        now = meta.get("reported_now")
+        if now is not None and not now.get("applies", True):
+            caught = "(patch no longer applies: the defect it leaned on was repaired; kept as a self-validation mutant) " + "; ".join(f"{p}: {', '.join(r)}" for p, r in sorted(meta["caught_by"].items()))
+        else:
+            table = now["violations"] if now is not None else meta["caught_by"]
+            caught = "; ".join(f"{p}: {', '.join(r)}" for p, r in sorted(table.items())) or "— (missed, see DESIGN §6)"
         rows.append(f"| `{ident}` | {meta['breaks_property']} | {meta['needs_to_manifest']} | {caught} |")
     text = [
         "# Seeded breaking changes",
